@@ -2,10 +2,12 @@
    th1/th2/th3 (Model/Credit.v) instantiate the py2coq-generated CFLevyModel._theta / CFLevyCopulaModel._theta
    (Gen/GenC19Theta.v, loops unrolled for d = 2, 3); fast_*d are the generated rectangle masses of C12; the spread maps are
    Gen/GenC19Spread.v.  The equality with the sum of the chain's per-state rates over the default region of a CTMCCredit
-   grid is NOT a theorem here: it is checked on the implementation (exactly on dyadic step models) by harness/props/C19.py. *)
+   grid is a theorem for d = 1 (C19_rate_equals_theta_credit_1d) and d = 2 (C19_rate_equals_theta_2d: C01's 2-d chain model on
+   a pair of C13's credit axes, rates = the generated rectangle mass of C12 over Q); d = 3 is checked on the implementation
+   (exactly on dyadic step models) by harness/props/C19.py. *)
 From Coq Require Import List Arith Bool Reals QArith Lra.
 From RV Require Import Base.RB Base.ExtNum Model.Copula Gen.GenC12Mass Model.MassNd Gen.GenC19Theta Gen.GenC19Spread Model.Credit
-  Proofs.C12_Mass Proofs.C12_Family Proofs.C12_Nonneg Proofs.C11_Copula Proofs.C11_Clayton Proofs.C11_Increasing Proofs.C11_Dep3 Proofs.C19_Credit Proofs.C19_Spread Model.Grid Model.Chain Proofs.C01_Chain Proofs.C13_Grid Proofs.C19_Rate Proofs.C19_RateCredit.
+  Proofs.C12_Mass Proofs.C12_Family Proofs.C12_Nonneg Proofs.C11_Copula Proofs.C11_Clayton Proofs.C11_Increasing Proofs.C11_Dep3 Proofs.C19_Credit Proofs.C19_Spread Model.Grid Model.Chain Proofs.C01_Chain Proofs.C13_Grid Proofs.C19_Rate Proofs.C19_RateCredit Proofs.C01_Chain2d Proofs.C19_Rate2d Proofs.C19_Theta2d Proofs.C19_StepTails Proofs.C19_Bracket.
 Import ListNotations.
 Open Scope R_scope.
 
@@ -138,6 +140,55 @@ Theorem C19_rate_equals_theta_credit_1d : forall (mass : Q -> Q -> Q) (U1 : nat 
   (qsum (map (fun k => mass (cell_lo amid xs k) (cell_hi amid xs k)) (seq 0 2)) == th1 QNum U1 (Fin a))%Q.
 Proof. intros mass U1 H1 H2 l a h r sym xs o. apply rate_equals_theta_credit_1d; assumption. Qed.
 
+(* the headline clause, d = 2, part 1: the chain of C01 (Model/Chain.v q_entry2: the rate of a state is the rectangle mass of its cell
+   between arithmetic mid-points) on a pair of level-0 credit axes (C13's credit_axis), for ANY rectangle mass that is additive under a
+   split of either coordinate on boxes avoiding the origin (C01's hypotheses; no positivity needed): the summed rates of the states with
+   x_i < a1 or y_j < a2 equal the mass of the default region inside the truncation box [l1,r1] x [l2,r2] -- as the disjoint sum
+   {x < a1} + {x >= a1, y < a2} and by inclusion-exclusion *)
+Theorem C19_rate_equals_union_mass_2d : forall (mass2 : Q * Q -> Q * Q -> Q),
+  (forall a1 b1 c1 y1 y2, (a1 <= b1)%Q -> (b1 <= c1)%Q -> avoids (a1, y1) (c1, y2) ->
+     (mass2 (a1, y1) (c1, y2) == mass2 (a1, y1) (b1, y2) + mass2 (b1, y1) (c1, y2))%Q) ->
+  (forall x1 x2 a2 b2 c2, (a2 <= b2)%Q -> (b2 <= c2)%Q -> avoids (x1, a2) (x2, c2) ->
+     (mass2 (x1, a2) (x2, c2) == mass2 (x1, a2) (x2, b2) + mass2 (x1, b2) (x2, c2))%Q) ->
+  (forall a1 a2 b1 b2 a1' a2' b1' b2', (a1 == a1')%Q -> (a2 == a2')%Q -> (b1 == b1')%Q -> (b2 == b2')%Q ->
+     (mass2 (a1, a2) (b1, b2) == mass2 (a1', a2') (b1', b2'))%Q) ->
+  forall l1 a1 r1 l2 a2 r2 h sym xs ys o1 o2,
+  credit_axis l1 a1 h r1 sym = Some (xs, o1) -> credit_axis l2 a2 h r2 sym = Some (ys, o2) ->
+  (default_rate2 amid mass2 xs ys 4 a1 a2 == mass2 (l1, l2) (a1, r2) + mass2 (a1, l2) (r1, a2))%Q
+  /\ (default_rate2 amid mass2 xs ys 4 a1 a2 == mass2 (l1, l2) (a1, r2) + mass2 (l1, l2) (r1, a2) - mass2 (l1, l2) (a1, a2))%Q.
+Proof. exact rate_equals_union_credit_2d. Qed.
+
+(* any admissible pair of axes (refined credit grids, uniform grids): with the first mx / my states of the axes in the default region
+   (mx, my <= origin index) the summed rates are the mass of the region bounded by the CELL boundaries b1, b2 after those states;
+   on refined credit grids b_i < a_i: the exact gap to theta is the mass of the slab between b_i and a_i *)
+Theorem C19_default_rate_2d_any_axes : forall (mid : Q -> Q -> Q) (mass2 : Q * Q -> Q * Q -> Q),
+  (forall x y, (x < y)%Q -> (x < mid x y)%Q /\ (mid x y < y)%Q) -> (forall x, ~ (x == 0)%Q -> (mid x x == x)%Q) ->
+  (forall x x' y y', (x == x')%Q -> (y == y')%Q -> (mid x y == mid x' y')%Q) ->
+  (forall a1 b1 c1 y1 y2, (a1 <= b1)%Q -> (b1 <= c1)%Q -> avoids (a1, y1) (c1, y2) ->
+     (mass2 (a1, y1) (c1, y2) == mass2 (a1, y1) (b1, y2) + mass2 (b1, y1) (c1, y2))%Q) ->
+  (forall x1 x2 a2 b2 c2, (a2 <= b2)%Q -> (b2 <= c2)%Q -> avoids (x1, a2) (x2, c2) ->
+     (mass2 (x1, a2) (x2, c2) == mass2 (x1, a2) (x2, b2) + mass2 (x1, b2) (x2, c2))%Q) ->
+  (forall a1 a2 b1 b2 a1' a2' b1' b2', (a1 == a1')%Q -> (a2 == a2')%Q -> (b1 == b1')%Q -> (b2 == b2')%Q ->
+     (mass2 (a1, a2) (b1, b2) == mass2 (a1', a2') (b1', b2'))%Q) ->
+  forall xs ys o hx hy mx my b1 b2, admissible xs o hx -> admissible ys o hy -> (1 <= mx <= o)%nat -> (1 <= my <= o)%nat ->
+  (cell_hi mid xs (mx - 1) == b1)%Q -> (cell_hi mid ys (my - 1) == b2)%Q ->
+  (default_rate2_idx mid mass2 xs ys o mx my == mass2 (headq xs, headq ys) (b1, lastq ys) + mass2 (b1, headq ys) (lastq xs, b2))%Q
+  /\ (default_rate2_idx mid mass2 xs ys o mx my ==
+        mass2 (headq xs, headq ys) (b1, lastq ys) + mass2 (headq xs, headq ys) (lastq xs, b2) - mass2 (headq xs, headq ys) (b1, b2))%Q.
+Proof. intros mid mass2 H1 H2 H3 H4 H5 H6 xs ys o hx hy mx my b1 b2. apply default_rate2_idx_boxes; assumption. Qed.
+
+(* the headline clause, d = 2, part 2 (composition): the rates are the GENERATED rectangle mass of the chain's model
+   (box_mass2 = LevyCopulaModel.mass fast path of Gen/GenC12Mass.v on finite boxes, over Q -- its additivity per coordinate is proved
+   from the generated term, no hypothesis), theta is the GENERATED CFLevyCopulaModel._theta (th2) of the same tail integrals; these are
+   the tail integrals of a measure truncated to the grid box (truncated2: marginal tails vanish at the truncation bounds, the pair tail
+   integral vanishes when an argument is a bound -- what truncate_levy_measure(grid.truncations) and a grounded copula give) and are
+   functions of the rational number (tails_proper2).  Then the summed rates over the default region EQUAL theta. *)
+Theorem C19_rate_equals_theta_2d : forall (U1 : nat -> ext Q -> Q) (UI : idx -> list (ext Q) -> Q) l1 a1 r1 l2 a2 r2 h sym xs ys o1 o2,
+  credit_axis l1 a1 h r1 sym = Some (xs, o1) -> credit_axis l2 a2 h r2 sym = Some (ys, o2) ->
+  tails_proper2 U1 UI -> truncated2 U1 UI l1 r1 l2 r2 ->
+  (default_rate2 amid (box_mass2 U1 UI) xs ys 4 a1 a2 == th2 QNum U1 UI (Fin a1) (Fin a2))%Q.
+Proof. exact rate_equals_theta_credit_2d. Qed.
+
 (* the implied-threshold objective composed with C19_monotone (d = 1): with the generated theta of real tails of a non-negative
    measure, cds_spread(a) - target is non-decreasing in the (negative) threshold *)
 Theorem C19_threshold_objective_monotone : forall (U1 : nat -> ext R -> R) (target rec : R), rtails_ok U1 -> rec <= 1 ->
@@ -150,6 +201,29 @@ Proof.
   split; assumption.
 Qed.
 
+(* implied_cds_threshold hands brentq the bracket (-10, -h0).  With the generated objective on the generated theta of real tails of a
+   non-negative measure: over the bracket the objective stays between its end values; a threshold in the bracket that reproduces the
+   target forces the sign condition f(-10) f(-h0) <= 0 (brentq's precondition); and without a sign change NO threshold in the bracket
+   reproduces the target (brentq's ValueError is then the right answer).  That a sign change yields a root needs continuity of the
+   tail integral (not assumed here) and brentq itself (not modelled). *)
+Theorem C19_threshold_bracket : forall (U1 : nat -> ext R -> R) (target rec h0 : R), rtails_ok U1 -> rec <= 1 -> 0 < h0 ->
+  let f := implied_threshold_fun R (fun x => th1 RNum U1 (Fin x)) target rec in
+  implied_threshold_fun_bracket h0 = (-10, - h0) /\
+  (forall a, -10 <= a <= - h0 -> f (-10) <= f a <= f (- h0)) /\
+  (forall a, -10 <= a <= - h0 -> f a = 0 -> f (-10) * f (- h0) <= 0) /\
+  (0 < f (-10) * f (- h0) -> forall a, -10 <= a <= - h0 -> f a <> 0).
+Proof. intros U1 target rec h0 Tok Hr Hh f. apply threshold_bracket; assumption. Qed.
+
+(* non-vacuity of rtails_ok (C19_monotone, C19_threshold_objective_monotone, C19_threshold_bracket): the two-sided exponential measure
+   exp(-|x|) dx has theta(a) = exp(a); the target spread (1 - 2/5) exp(-1) is reproduced by the threshold -1 inside the bracket (-10, -1/20) *)
+Example C19_threshold_nonvacuous :
+  rtails_ok exp_tail /\ (forall a, a < 0 -> th1 RNum exp_tail (Fin a) = exp a) /\
+  implied_threshold_fun R (fun x => th1 RNum exp_tail (Fin x)) ((1 - 2 / 5) * exp (-1)) (2 / 5) (-1) = 0 /\ -10 <= -1 <= - (1 / 20).
+Proof.
+  split; [exact exp_tail_ok|]. split; [exact exp_tail_theta|]. split; [|lra].
+  unfold implied_threshold_fun, cds_spread. rewrite exp_tail_theta by lra. lra.
+Qed.
+
 (* non-vacuity: the Q instance of the generated theta evaluates on a dyadic step model (independent copula): the union
    mass is the sum of the two marginal masses below the thresholds *)
 Open Scope Q_scope.
@@ -160,6 +234,23 @@ Example C19_nonvacuous :
   /\ Qeq_bool (th2 QNum (step_U1 C19_example_margins) (step_UI Dep C19_example_margins) (Fin (-1)) (Fin (-(1#2)))) (3#2) = true.
 Proof. vm_compute. repeat split. Qed.
 
+(* non-vacuity of the d = 2 headline: step margins on [-2,2] and [-1,1] with the completely dependent copula satisfy BOTH hypotheses
+   (tails_proper2 by theorem for every pair of step margins, truncated2 from the four vanishing marginal tails), the symmetric credit
+   axes exist, and the common value of the summed rates (81 states, 45 of them in the default region) and of the generated theta is 3/2;
+   the Lebesgue rectangle mass satisfies the hypotheses of the abstract theorem (it is additive everywhere) *)
+Example C19_rate_2d_nonvacuous :
+  let U1 := step_U1 ex2_margins in let UI := step_UI Dep ex2_margins in
+  (tails_proper2 U1 UI /\ truncated2 U1 UI (-2) 2 (-1) 1) /\
+  (exists xs ys, credit_axis (-2) (-1) (1#4) 2 true = Some (xs, 4%nat) /\ credit_axis (-1) (-(1#2)) (1#4) 1 true = Some (ys, 4%nat) /\
+     length xs = 9%nat /\ length ys = 9%nat /\
+     Qeq_bool (default_rate2 amid (box_mass2 U1 UI) xs ys 4 (-1) (-(1#2))) (3#2) = true /\
+     Qeq_bool (th2 QNum U1 UI (Fin (-1)) (Fin (-(1#2)))) (3#2) = true /\
+     Qeq_bool (default_rate2 amid (fun a b => (fst b - fst a) * (snd b - snd a)) xs ys 4 (-1) (-(1#2))) (1 * 2 + 3 * (1#2)) = true).
+Proof.
+  cbv zeta. split; [exact ex2_hypotheses|]. eexists. eexists. split; [vm_compute; reflexivity|]. split; [vm_compute; reflexivity|].
+  vm_compute. repeat split.
+Qed.
+
 Print Assumptions C19_theta_is_union_mass.
 Print Assumptions C19_monotone.
 Print Assumptions C19_monotone_modelled.
@@ -167,5 +258,11 @@ Print Assumptions C19_spread_maps.
 Print Assumptions C19_implied_quantities.
 Print Assumptions C19_rate_equals_theta_partial.
 Print Assumptions C19_rate_equals_theta_credit_1d.
+Print Assumptions C19_rate_equals_union_mass_2d.
+Print Assumptions C19_default_rate_2d_any_axes.
+Print Assumptions C19_rate_equals_theta_2d.
 Print Assumptions C19_threshold_objective_monotone.
+Print Assumptions C19_threshold_bracket.
+Print Assumptions C19_threshold_nonvacuous.
 Print Assumptions C19_nonvacuous.
+Print Assumptions C19_rate_2d_nonvacuous.
